@@ -84,7 +84,8 @@ Definition wf_table (t : table) : bool :=
      periods, when present           ndim entries; each header token without blank or '/', not starting with a quote, and
                                      at most 59 characters (what is left on a card after "HIERARCH PERIODnnn = "; the
                                      text %.15G produces has at most 22)
-     auxiliary entries               key not reserved (that includes EXTNAME / HDUNAME), characters 32..126 (wf_table: aux_key_ok);
+     auxiliary entries               (values may hold quotes anywhere: the reader un-doubles what the card doubles)
+                                     key not reserved (that includes EXTNAME / HDUNAME), characters 32..126 (wf_table: aux_key_ok);
                                      key of at most 8 characters: no blank, encoded value (every quote counted twice, as
                                      write_key counts it) at most 68 characters;
                                      longer key (HIERARCH): no '=', no leading or trailing blank, and
@@ -100,8 +101,11 @@ Definition two63N : N := 9223372036854775808.
 Definition two64N : N := 18446744073709551616.
 
 Definition count_char (x : N) (l : str) : nat := length (filter (fun c => c =? x) l).
-(* write_key's encodedlen = length (escape_quotes v) *)
+(* write_key's encodedlen = length (escape_quotes v)  (= FitsModel.encoded_len v, by unfolding) *)
 Definition enc_len (v : str) : nat := (length v + count_char quote v)%nat.
+(* the auxiliary value a reader returns for the value v of the table written: v itself and, when its encoded text is
+   shorter than the 8 characters cfitsio pads a string value to, the missing blanks — nothing else, quotes included *)
+Definition aux_reloaded (v : str) : str := v ++ repeat sp (8 - enc_len v).
 
 Definition aux_entry_ok (kv : str * str) : bool :=
   let k := fst kv in
